@@ -130,8 +130,12 @@ TQueryResult ==
         ELSE obs = M
   /\ UNCHANGED <<vars, qs, ss, scn, fails>>
 
+\* a query whose result is not bound here (its scan starts are still lines of
+\* the trace); being a query, it changes nothing
+TOther == IsEv("Other") /\ UNCHANGED <<vars, qs, ss, scn, fails>>
+
 Normal ==
-  \/ TReset \/ TStart \/ TOpen \/ TInsert \/ TDecide \/ TApply
+  \/ TOther \/ TReset \/ TStart \/ TOpen \/ TInsert \/ TDecide \/ TApply
   \/ TFlushBegin \/ TFlushTemp \/ TFlushRename \/ TFlushSwap \/ TOffWrite \/ TRemoveOld
   \/ TAlterFields \/ TRSFields \/ TAlterWhere \/ TCrash \/ TClose
   \/ TQueryStart \/ TQueryResult \/ TScanBegin
